@@ -356,8 +356,17 @@ def copy_contract(I, args, kwargs):
     src = args[0]
     if not isinstance(src, Obj):
         raise Undecided('copy.copy of %r' % (src,))
-    new = I.alloc(src.cls)
     cname = src.cls.__name__
+    if '__copy__' in vars(src.cls):
+        # the class says how it is copied: run its own __copy__; ghost
+        # fields follow the object
+        new = I.call(vars(src.cls)['__copy__'], [src], {})
+        for (cn, fld), spec in I.registry['fields'].items():
+            if cn == cname and fld.startswith('ghost_'):
+                I.write_field(new, fld, I.read_field(src, fld))
+        I.event('copy', src, new)
+        return new
+    new = I.alloc(src.cls)
     for (cn, fld), spec in I.registry['fields'].items():
         if cn == cname:
             I.write_field(new, fld, I.read_field(src, fld))
@@ -737,4 +746,162 @@ BPS_LOOPS = {
                           ('ProviderSummary', 'resources'),
                           ('RequestWideSearchContext', 'psum_res_by_rp_rc'),
                           ('RequestWideSearchContext', 'summaries_by_id'))),
+}
+
+
+# --------------------------------------------------------------------------
+# _alloc_candidates_single_provider: every request it returns places every
+# requested class in full on one provider of rp_tuples and maps the group's
+# suffix to exactly that provider
+SQ = '_alloc_candidates_single_provider'
+
+
+class AnchorRow(object):
+    """a row of anchors_for_sharing_providers (AnchorIds namedtuple)"""
+
+
+SP_FIELDS = {
+    ('AnchorRow', 'anchor_id'): FieldSpec('int'),
+    ('AnchorRow', 'anchor_uuid'): FieldSpec('str'),
+    ('AnchorRow', 'rp_id'): FieldSpec('int'),
+    ('AnchorRow', 'rp_uuid'): FieldSpec('str'),
+    # ghost: the provider an AllocationRequest was built for (written by the
+    # wrapper of _allocation_request_for_provider, follows copies)
+    ('AllocationRequest', 'ghost_prov'): FieldSpec(('obj', RP)),
+    ('RequestWideSearchContext', 'anchor_root_ids'): FieldSpec(
+        ('set', 'int'), True),
+    ('RequestWideSearchContext', 'summaries_by_id'): FieldSpec(
+        ('map', 'int', ('obj', PSUM))),
+    ('RequestGroupSearchContext', 'resources'): FieldSpec(('map', 'int', 'int')),
+    ('RequestGroupSearchContext', 'suffix'): FieldSpec('str'),
+}
+
+
+def request_for_provider_wrapper(I, args, kwargs):
+    """the real body, plus the ghost field naming the provider"""
+    res = I.call_real_function(ac._allocation_request_for_provider, args,
+                               kwargs)
+    prov = args[2] if len(args) > 2 else kwargs['provider']
+    I.write_field(res, 'ghost_prov', prov)
+    return res
+
+
+def sp_full(I, a, req, suffix, enum):
+    """request a (a reference term) holds exactly one resource request per
+    requested class, in the enumeration order of the requested dict, each on
+    the ghost provider for the full amount; its mapping names that provider"""
+    from pyvc.values import sort_of
+    from pyvc.ops import to_term
+    ctx = I.ghost['ctx']
+    p = z3.Select(I.fld(AREQ, 'ghost_prov'), a)
+    ln, ar = rr(I, a)
+    q = z3.Int('q!spf')
+    x = z3.Select(ar, q)
+    mid = z3.Select(I.fld(AREQ, 'mappings'), a)
+    mdom, mval = I.coll_fns(('map', 'str', ('set', 'str')))
+    members = I.coll_fns(('set', 'str'))[0](
+        z3.Select(mval(mid), to_term(suffix, 'str')))
+    k = z3.Const('k!spf', sort_of('str'))
+    u = z3.Const('u!spf', sort_of('str'))
+    top = I.next_ref        # everything allocated so far lies at or below
+    return [
+        z3.And(ln == enum.len, a >= 0, a <= top),
+        ops.forall([q], z3.Implies(
+            z3.And(q >= 0, q < ln),
+            z3.And(x >= 0, x <= top,
+                   z3.Select(I.fld(ARR, 'resource_provider'), x) == p,
+                   z3.Select(I.fld(ARR, 'resource_class'), x) ==
+                   ctx.rc_cache.f_str(enum.at(q)),
+                   z3.Select(I.fld(ARR, 'amount'), x) ==
+                   z3.Select(req.val, enum.at(q)))),
+            patterns=[z3.Select(ar, q)]),
+        ops.forall([k], z3.Select(mdom(mid), k) ==
+                   (k == to_term(suffix, 'str')),
+                   patterns=[z3.Select(mdom(mid), k)]),
+        ops.forall([u], z3.Select(members, u) ==
+                   (u == z3.Select(I.fld(RP, 'uuid'), p)),
+                   patterns=[z3.Select(members, u)]),
+    ]
+
+
+def _sp_ctx(I, frame):
+    g = I.ghost
+    rg = frame.locals['rg_ctx']
+    req = I.read_field(rg, 'resources')
+    suffix = I.read_field(rg, 'suffix')
+    enum = I._enum(req.dom, req.kty, 'requested', req)
+    tuples = g['sp.tuples']
+    return req, suffix, enum, tuples
+
+
+def sp_entry(I, frame, seq):
+    I.ghost.setdefault('sp.tuples', seq)
+    I.ghost.setdefault('sp.sums', I.read_field(frame.locals['rw_ctx'],
+                                               'summaries_by_id'))
+
+
+def _sp_from_tuples(I, a, upto, tuples):
+    """the ghost provider of a is the summary provider of one of the first
+    `upto` tuples"""
+    from pyvc.ops import to_term
+    sums = I.ghost['sp.sums']
+    j = z3.Int('j!spt')
+    rp_id = to_term(tuples.element(I, j)[0], 'int')
+    return z3.Exists([j], z3.And(
+        j >= 0, j < upto,
+        z3.Select(I.fld(AREQ, 'ghost_prov'), a) ==
+        z3.Select(I.fld(PSUM, 'resource_provider'),
+                  z3.Select(sums.val, rp_id))))
+
+
+def _sp_all(I, frame, lst, upto):
+    req, suffix, enum, tuples = _sp_ctx(I, frame)
+    k = z3.Int('k!spi')
+    a = z3.Select(lst.arr, k)
+    out = []
+    for f in sp_full(I, a, req, suffix, enum) + \
+            [_sp_from_tuples(I, a, upto, tuples)]:
+        out.append(ops.forall([k], z3.Implies(z3.And(k >= 0, k < lst.len), f),
+                              patterns=[z3.Select(lst.arr, k)]))
+    return out
+
+
+def sp_outer_inv(I, frame, i, seq):
+    I.ghost['sp.outer_i'] = i
+    return _sp_all(I, frame, frame.locals['alloc_requests'], i)
+
+
+def sp_inner_inv(I, frame, i, seq):
+    req, suffix, enum, tuples = _sp_ctx(I, frame)
+    oi = I.ghost['sp.outer_i']
+    cur = frame.locals['req_obj']
+    return _sp_all(I, frame, frame.locals['alloc_requests'], oi + 1) + \
+        sp_full(I, cur.ref, req, suffix, enum) + \
+        [_sp_from_tuples(I, cur.ref, oi + 1, tuples)]
+
+
+_SP_MOD = (('AllocationRequestResource', 'resource_provider'),
+           ('AllocationRequestResource', 'resource_class'),
+           ('AllocationRequestResource', 'amount'),
+           ('AllocationRequest', 'resource_requests'),
+           ('AllocationRequest', 'mappings'),
+           ('AllocationRequest', 'anchor_root_provider_uuid'),
+           ('AllocationRequest', 'use_same_provider'),
+           ('AllocationRequest', 'ghost_prov'))
+
+SP_LOOPS = {
+    (SQ, 1): LoopSpec(invariant=sp_outer_inv, on_entry=sp_entry,
+                      name='C02.single.providers',
+                      keep=('rg_ctx', 'rw_ctx', 'rp_tuples', 'root_ids',
+                            'prov_traits'),
+                      modifies_fields=_SP_MOD),
+    (SQ, 2): LoopSpec(invariant=sp_inner_inv, name='C02.single.anchors',
+                      keep=('rg_ctx', 'rw_ctx', 'rp_tuples', 'root_ids',
+                            'prov_traits', 'rp_id', 'root_id', 'rp_summary',
+                            'traits', 'anchors'),
+                      modifies_fields=_SP_MOD),
+}
+
+SP_HAVOC_TYPES = {
+    (SQ, 'alloc_requests'): ('list', ('obj', AREQ)),
 }
